@@ -21,7 +21,7 @@ META = {
     "title": "Parsing any text terminates promptly and fails only with diagnostics",
     "category": "proof",
     "design_ref": "DESIGN.md §5 C07",
-    "lean_modules": ["XdslProofs.C07", "XdslProofs.C07Scan", "XdslProofs.C07SsaNames"],
+    "lean_modules": ["XdslProofs.C07", "XdslProofs.C07Scan", "XdslProofs.C07SsaNames", "XdslProofs.C07Names"],
     "text": (
         "PARTIAL (by design, DESIGN.md §5 C07). Proved in Lean for the model of MLIRLexer (xdsl/utils/mlir_lexer.py "
         "with the C07 repairs; every token regex hand-transcribed as a total matcher on code points that carry CPython's "
@@ -45,7 +45,13 @@ META = {
         "`done` or one of six ParseErrors; resolve_forward_again, resolve_keeps_forward — forward references `%x#i`, `%x#j` "
         "of an undefined name are all kept and answered with the same placeholders; define_clears_forward. Tied to /repo "
         "by generated modules of generic operations, regions and block arguments: IR / which ParseError of parse_module "
-        "against the model on the module's event sequence. NOT proved, "
+        "against the model on the module's event sequence. And for the model of the name hints the parser gives to values and "
+        "blocks (IRWithName.is_valid_name / extract_valid_name / the name_hint setter with its ValueError as an explicit "
+        "outcome, Block.is_default_block_name, the guarded setter calls of _register_ssa_definition, _parse_block, "
+        "_get_block_from_name, parse_optional_successor): valueHint_no_error / blockHint_no_error — no identifier reaches the "
+        "ValueError; stripped_prefix, stripped_valid_or_empty — the stored hint is the name without trailing `_<digits>` "
+        "groups, empty or again a valid name. Tied to /repo by parsing every identifier shape as a result name, a block label "
+        "and a forward-referenced block label and comparing the name_hint of the parsed object. NOT proved, "
         "explored only (failing-input search): the parser proper with all ~80 dialects registered (parse_module / "
         "parse_attribute / parse_type, allow_unregistered both ways) must end with IR, ParseError or a "
         "DiagnosticException (VerifyException, ...), within a CPU budget scaled to the input length, and growth families "
@@ -71,8 +77,14 @@ META = {
         "budget of 2 s + 0.5 ms per character — two to three orders of magnitude above the normal rate — plus a "
         "wall-clock watchdog for code stuck inside C (regex); growth-family members shorter than 1000 characters run under "
         "this same guard (an exponential matcher shows there at 25-30 characters), larger ones flag only ratio > 4x linear over a 16x size "
-        "span with the larger run > 0.5 s CPU and slower than 10 us/char overall, re-measured twice. Failures that do not reproduce in a fresh process "
-        "(state leaking between parses in one Context) are reported in the evidence, not as violations."
+        "span with the larger run > 0.5 s CPU and slower than 10 us/char overall, re-measured twice. "
+        "The parser is run in one long-lived process (one Context per allow_unregistered value, for a part of the "
+        "parses a clone of it per parse). A failure that does not reproduce in a fresh process is searched for in the "
+        "history of that process: when a fresh process that first parses some of the earlier texts and then the input "
+        "fails in the same way, the history (usually one earlier text + the input) is the failing input and is reported "
+        "like any other; only failures that cannot be reproduced from the history are left in the evidence. A parse that "
+        "ends with IR after one history and with a diagnostic after another is recorded in the evidence only (both are "
+        "outcomes the statement allows)."
     ),
     "rule": (
         "streams: (a) corpus chunks (tests/**/*.mlir split on '// -----', <= 6000 chars) mutated 1-4 times by "
@@ -93,7 +105,16 @@ META = {
         "truncation-style edits: last / first / random quote deleted, last / random closer or opener deleted, the closing "
         "`>` deleted, closer inserted, closers swapped, backslash before the last quote, cut anywhere; corpus chunks with "
         "every dialect symbol renamed to an unregistered dialect and the last quote / bracket deleted; each text goes "
-        "through the parser and through _raw_scan_balanced alone); a deterministic sweep of every "
+        "through the parser and through _raw_scan_balanced alone); a sigil family (one dialect symbol name — pretty, opaque, bare; unregistered and registered — "
+        "as `#` attribute and as `!` type in both orders: in one module, in two parses with one Context, in two parses with "
+        "a new Context each, through parse_attribute / parse_type; the same as a mutation of corpus chunks: a symbol of the "
+        "chunk added under the other sigil); an identifier family (every string over {letter, digit, `_`, `$`, `.`, `-`} of "
+        "length <= 3, quick: + 120 seeded of length 4, thorough: <= 4 + 1500 seeded of length 5, as result name, `:2` result, second result, block "
+        "argument, second block argument, block label with / without arguments, forward successor, forward value use, "
+        "function argument, `cf.br` successor, `scf.for` induction variable, symbol name; one module with all positions, "
+        "each position alone when that module is rejected; name_hint compared with the Lean model); a literal family (23 "
+        "element types x 41 literals x 12 dense / array / sparse / typed-literal forms, affine `a op b` over constants incl. "
+        "0, dimensions, symbols in maps and sets; quick: a seeded twentieth covering every type, literal and form); a deterministic sweep of every "
         "registered custom-syntax op name and attribute/type name through small templates; (c) short random strings over "
         "a lexer-focused alphabet (lexer correspondence only); (d) growth families at doubling sizes. Non-trivial = the "
         "text is not a verbatim corpus chunk and lexes to >= 5 tokens (or ends in a lexer error after >= 2 tokens); "
@@ -104,6 +125,7 @@ META = {
         "hand-written Lean model XdslModel/Lexer.lean of xdsl/utils/mlir_lexer.py (tied by correspondence only)",
         "hand-written Lean model XdslModel/RawScan.lean of AttrParser._raw_scan_balanced (tied by correspondence only)",
         "hand-written Lean model XdslModel/SsaNames.lean of Parser.resolve_operand / _register_ssa_definition (tied by correspondence only)",
+        "hand-written Lean model XdslModel/ValueNames.lean of IRWithName.is_valid_name / extract_valid_name and the parser's guarded name_hint assignments (tied by correspondence only)",
         "CPython `re` semantics of the lexer's regular expressions (character classes compared for every code point in thorough)",
     ],
     "assumptions": [
@@ -238,6 +260,29 @@ def _scan_line(text: str, pos: int) -> str:
     return f"ok {r}"
 
 
+HINT_TEMPLATES = {
+    "value": '%{N} = "test.op"() : () -> i32',
+    "block": '"test.op"() ({{\n^{N}:\n  "test.op"() : () -> ()\n}}) : () -> ()',
+    "successor": '"test.op"() ({{\n  "test.op"()[^{N}] : () -> ()\n^{N}:\n  "test.op"() : () -> ()\n}}) : () -> ()',
+}
+
+
+def _hint_line(name: str, which: str) -> str:
+    """the `name_hint` the parser leaves on the value `%name` / the block `^name`, as a line of the `value_names`
+    model protocol (`skip` when the text is not accepted: the name is not one identifier token)"""
+    from xdsl.parser import Parser
+    from xdsl.utils.exceptions import ParseError
+
+    try:
+        module = Parser(_CTX[True], HINT_TEMPLATES[which].format(N=name), "<fuzz>").parse_module()
+    except ParseError:
+        return "skip"
+    op = module.body.block.first_op
+    obj = op.results[0] if which == "value" else op.regions[0].blocks[-1]
+    h = obj.name_hint
+    return "none" if h is None else " ".join(["hint"] + [f"{ord(c):x}" for c in h])
+
+
 def _do_job(job: dict) -> dict:
     from xdsl.parser import Parser
     from xdsl.utils.exceptions import DiagnosticException, ParseError
@@ -253,8 +298,13 @@ def _do_job(job: dict) -> dict:
                 res = {"out": "ok", "lex": _lex_line(text)}
             elif job["kind"] == "scan":
                 res = {"out": "ok", "scan": _scan_line(text, job["pos"])}
+            elif job["kind"] == "hint":
+                res = {"out": "ok", "hint": _hint_line(text, job["which"])}
             else:
-                parser = Parser(_CTX[job["allow"]], text, "<fuzz>")
+                # `clone`: a new Context per parse (what a tool that handles several files in one process does);
+                # what is left over from earlier parses is then process-wide state only
+                pctx = _CTX[job["allow"]].clone() if job.get("clone") else _CTX[job["allow"]]
+                parser = Parser(pctx, text, "<fuzz>")
                 if job["entry"] == "module":
                     parser.parse_module()
                 elif job["entry"] == "attr":
@@ -361,6 +411,8 @@ class Sandbox:
         preload()
         self.pid: int | None = None
         self.spawned = 0
+        # the parser / scan jobs this child has run since it was forked, in order (the history of its process state)
+        self.log: list[dict] = []
 
     def _spawn(self) -> None:
         p2c_r, p2c_w = os.pipe()
@@ -381,6 +433,7 @@ class Sandbox:
         os.close(c2p_w)
         self.pid, self.w, self.r = pid, p2c_w, c2p_r
         self.spawned += 1
+        self.log = []
 
     def _read(self, n: int, deadline: float) -> bytes | None:
         buf = b""
@@ -440,6 +493,8 @@ class Sandbox:
         hdr = self._read(4, deadline)
         body = self._read(struct.unpack("<I", hdr)[0], deadline) if hdr else None
         if body is not None:
+            if job["kind"] != "lex" and not job.get("nolog"):
+                self.log.append(job)
             return pickle.loads(body)
         # the child died (watchdog, crash) or is stuck beyond the backstop
         expired = time.time() >= deadline
@@ -465,14 +520,17 @@ class Sandbox:
                 "msg": f"child exited with status {status}"}
 
 
-def fresh_call(job: dict) -> dict:
-    """the job in a new process.  A CPU-budget overrun is measured again in that same process: first-use costs of a
-    new process (lazily built assembly formats, copy-on-write faults after the fork — seconds on a loaded machine)
-    are not part of the parse time of the input"""
+def fresh_call(job: dict, history: list[dict] | None = None) -> dict:
+    """the job in a new process — after the jobs of `history`, if given, in that same process.  A CPU-budget overrun
+    is measured again in that same process: first-use costs of a new process (lazily built assembly formats,
+    copy-on-write faults after the fork — seconds on a loaded machine) are not part of the parse time of the input"""
     sb = Sandbox()
     try:
+        for h in history or []:
+            h = {k: v for k, v in h.items() if k not in ("cpu", "wall")}
+            sb.call(h)
         r = sb.call(dict(job))
-        if r["out"] == "budget":
+        if r["out"] == "budget" and not history:
             r = sb.call(dict(job))
         return r
     finally:
@@ -1041,6 +1099,178 @@ def drop_last_of(rng, text: str) -> str:
     return _drop_at(text, i) if i >= 0 else text
 
 
+# ---- sigil family: one dialect symbol name under both sigils (`#d.n` attribute, `!d.n` type), and parse histories ----
+SIGIL_ATTR_USES = ['"test.op"() {{a = {a}}} : () -> ()', '"test.op"() <{{p = {a}}}> : () -> ()', '#al = {a}\n"test.op"() {{a = #al}} : () -> ()']
+SIGIL_TYPE_USES = ['%0 = "test.op"() : () -> {t}', '"test.op"() ({{\n^b(%a : {t}):\n}}) : () -> ()', "func.func private @f({t}) -> ()",
+                   '"test.op"() {{a = {t}}} : () -> ()', '!al = {t}\n%0 = "test.op"() : () -> !al']
+SIGIL_SPELLINGS = ["{s}{d}.{n}<x>", "{s}{d}<{n} x>", "{s}{d}.{n}", '{s}{d}.{n}<"s", [1]>', "{s}{d}<{n}>"]
+
+
+def sigil_cases(rng, quick: bool, prefix: str = "zs"):
+    """lists of (entry, text, clone): the parses of one history, run one after the other in one process.  The same
+    name `d.n` of an unregistered dialect — pretty `d.n<..>`, opaque `d<n ..>`, bare `d.n` — as an attribute and as
+    a type, in both orders: in one module; in two parses with one Context; in two parses with a new Context each;
+    through parse_attribute / parse_type.  Every history has its own name, so that it starts from a process that has
+    not seen the name; registered names (`#builtin.int`, `!builtin.int`, `#llvm.ptr`, `!arith.fastmath`) likewise."""
+    k = [0]
+
+    def fresh_name() -> tuple[str, str]:
+        k[0] += 1
+        return f"{prefix}{k[0]}", f"n{k[0]}"
+
+    spell = [(a, t) for a in SIGIL_SPELLINGS for t in SIGIL_SPELLINGS]
+    if quick:   # every spelling on either side at least once with the first spelling of the other side, plus a seeded rest
+        spell = [(a, t) for a, t in spell if a == SIGIL_SPELLINGS[0] or t == SIGIL_SPELLINGS[0]] + rng.sample(spell, 4)
+    for sa, st in spell:
+        for mode in ("one_module", "two_parses", "two_contexts", "entries"):
+            for attr_first in (True, False):
+                d, n = fresh_name()
+                a, t = sa.format(s="#", d=d, n=n), st.format(s="!", d=d, n=n)
+                ua = rng.choice(SIGIL_ATTR_USES).format(a=a)
+                ut = rng.choice(SIGIL_TYPE_USES).format(t=t)
+                pair = [("module", ua), ("module", ut)] if mode != "entries" else [("attr", a), ("type", t)]
+                if not attr_first:
+                    pair.reverse()
+                if mode == "one_module":
+                    # alias definitions go first in a module
+                    lines = sorted(pair[0][1].split("\n") + pair[1][1].split("\n"), key=lambda l: not l.startswith(("#al", "!al")))
+                    yield [("module", "\n".join(lines), False)]
+                else:
+                    yield [(e, x, mode == "two_contexts") for e, x in pair]
+    # registered names under the other sigil, and a type name asked for as an attribute after it was used as a type
+    for name in (["builtin.int", "llvm.ptr", "arith.fastmath", "builtin.index"] if quick else
+                 ["builtin.int", "llvm.ptr", "arith.fastmath", "builtin.index"] + _NAMES["attrs"][:: max(1, len(_NAMES["attrs"]) // 40)] +
+                 _NAMES["types"][:: max(1, len(_NAMES["types"]) // 40)]):
+        yield [("type", "!" + name, False), ("attr", "#" + name, False), ("type", "!" + name + "<>", False)]
+        yield [("attr", "#" + name + "<1>", True), ("type", "!" + name, True)]
+
+
+_SYMBOL_RE = re.compile(r"([#!])([A-Za-z_][\w$]*(?:\.[A-Za-z_][\w$.]*)?)")
+
+
+def _symbol_end(text: str, i: int) -> int:
+    """end of the dialect symbol whose name ends at `i`: the balanced `<...>` body if there is one"""
+    if i >= len(text) or text[i] != "<":
+        return i
+    depth, j, in_str = 0, i, False
+    while j < len(text):
+        c = text[j]
+        if in_str:
+            if c == "\\":
+                j += 1
+            elif c == '"':
+                in_str = False
+        elif c == '"':
+            in_str = True
+        elif c in "<([{":
+            depth += 1
+        elif c in ">)]}":
+            depth -= 1
+            if depth == 0:
+                return j + 1
+        j += 1
+    return i
+
+
+def both_sigils(rng, text: str) -> str:
+    """take a dialect symbol `#d.n<...>` / `!d.n<...>` of the text and add an operation that holds the same symbol
+    under the other sigil (as an attribute value / as a result type), in front of the text or behind it; half of the
+    time every dialect symbol gets an unregistered dialect name first"""
+    if rng.random() < 0.5:
+        text = unregister_dialect_symbols(text)
+    ms = [m for m in _SYMBOL_RE.finditer(text) if "." in m.group(2) or text[m.end():m.end() + 1] == "<"]
+    if not ms:
+        d = "zt" + str(rng.randrange(10 ** 6))
+        return f'"test.op"() {{a = #{d}.n<x>}} : () -> !{d}.n<x>\n' + text
+    m = rng.choice(ms)
+    sym = text[m.start() + 1:_symbol_end(text, m.end())]
+    as_type = f'%twin{rng.randrange(100)} = "test.op"() : () -> !{{}}\n'
+    as_attr = '"test.op"() {{twin = #{}}} : () -> ()\n'
+    if rng.random() < 0.5:
+        # a name no earlier parse of the process has seen, under both sigils in the added operations
+        sym = "q" + str(rng.randrange(10 ** 6)) + "_" + sym
+        twin = as_attr.format(sym) + as_type.format(sym) if rng.random() < 0.5 else as_type.format(sym) + as_attr.format(sym)
+    else:
+        twin = as_type.format(sym) if m.group(1) == "#" else as_attr.format(sym)
+    return twin + text if rng.random() < 0.5 else text + "\n" + twin
+
+
+# ---- literal family: builtin attribute literals at the boundaries of their element types -------------------------
+LIT_TYPES = ["i0", "i1", "i8", "si8", "ui8", "i32", "i64", "i1000", "index", "f16", "bf16", "f32", "f64", "f80", "f128", "tf32",
+             "complex<f32>", "complex<i8>", "complex<f80>", "none", "!zz.t", "tensor<1xi8>", "i4294967296"]
+LIT_VALUES = ["0", "1", "-1", "127", "128", "-128", "-129", "255", "256", "300", "65536", "9223372036854775808", "18446744073709551616",
+              "0.0", "-0.0", "1.5", "70000.0", "3.5e38", "3.5e39", "1.0e309", "-1.0e309", "0x7F", "0xFF", "0x7C00", "0xFFFF", "0x7FC00000",
+              "0x1p3", "true", "false", "(1, 2)", "(1.0, 2.0)", "(1, 2.0)", "(300, 0)", "(70000.0, 0.0)", '"0x00"', '"0x0000803F"', '"0xZZ"', '"s"',
+              "[]", "unit", "1e"]
+LIT_FORMS = ["dense<{v}> : tensor<1x{t}>", "dense<[{v}]> : tensor<1x{t}>", "dense<[{v}, {v}]> : vector<2x{t}>", "dense<[[{v}]]> : tensor<1x1x{t}>",
+             "dense<{v}> : tensor<0x{t}>", "dense<[]> : tensor<0x{t}>", "array<{t}: {v}>", "array<{t}: {v}, {v}>", "array<{t}>", "{v} : {t}",
+             "sparse<[0], [{v}]> : tensor<1x{t}>", "sparse<0, {v}> : tensor<1x{t}>"]
+AFF_ATOMS = ["0", "1", "-1", "5", "d0", "s0", "(d0 + 1)", "-d0", "9223372036854775808"]
+AFF_OPS = ["+", "-", "*", "floordiv", "ceildiv", "mod"]
+AFF_FORMS = ["affine_map<(d0)[s0] -> ({e})>", "affine_set<(d0)[s0] : ({e} >= 0)>", "affine_map<(d0)[s0] -> ({e}, {e})>",
+             "affine_set<(d0)[s0] : ({e} == 0, d0 >= 0)>"]
+
+
+def literal_cases(rng, quick: bool):
+    """(entry, text): every element type x literal x literal form (quick: a seeded twentieth, every type, value and form at
+    least once) and every affine expression `a op b` over small atoms (constants incl. 0 on the right of a division, a
+    dimension, a symbol, a sum) in maps and sets"""
+    combos = [(f, t, v) for f in LIT_FORMS for t in LIT_TYPES for v in LIT_VALUES]
+    if quick:
+        n = max(len(LIT_FORMS), len(LIT_TYPES), len(LIT_VALUES))
+        fs, ts, vs = (rng.sample(x, len(x)) for x in (LIT_FORMS, LIT_TYPES, LIT_VALUES))
+        cover = [(fs[i % len(fs)], ts[i % len(ts)], vs[i % len(vs)]) for i in range(n)]
+        combos = cover + rng.sample(combos, len(combos) // 20)
+    for f, t, v in combos:
+        yield "attr", f.format(t=t, v=v)
+    exprs = [f"{a} {op} {b}" for a in AFF_ATOMS for op in AFF_OPS for b in AFF_ATOMS]
+    if quick:
+        exprs = [e for e in exprs if e.split()[-1] in ("0", "1", "s0")] [::2] + rng.sample(exprs, 40)
+    for i, e in enumerate(exprs):
+        for form in (AFF_FORMS if not quick else [AFF_FORMS[i % len(AFF_FORMS)]]):
+            yield "attr", form.format(e=e)
+
+
+# ---- identifier shapes: every short name over the classes of characters an identifier can hold, in every position ----
+IDENT_ALPHABET = "a1_$.-"
+IDENT_POSITIONS = [
+    ("result", '%{N} = "test.op"() : () -> i32\n"test.op"(%{N}) : (i32) -> ()'),
+    ("results", '%{N}:2 = "test.op"() : () -> (i32, i32)\n"test.op"(%{N}#1) : (i32) -> ()'),
+    ("result_list", '%x, %{N} = "test.op"() : () -> (i32, i32)\n"test.op"(%{N}, %x) : (i32, i32) -> ()'),
+    ("block_arg", '"test.op"() ({{\n^bb0(%{N} : i32):\n  "test.op"(%{N}) : (i32) -> ()\n}}) : () -> ()'),
+    ("block_label", '"test.op"() ({{\n^{N}:\n  "test.op"() : () -> ()\n}}) : () -> ()'),
+    ("block_label_args", '"test.op"() ({{\n^{N}(%x : i32):\n  "test.op"()[^{N}] : () -> ()\n}}) : () -> ()'),
+    ("successor_forward", '"test.op"() ({{\n  "test.op"()[^{N}] : () -> ()\n^{N}:\n  "test.op"() : () -> ()\n}}) : () -> ()'),
+    ("forward_use", '"test.op"() ({{\n  "test.op"(%{N}) : (i32) -> ()\n  %{N} = "test.op"() : () -> i32\n}}) : () -> ()'),
+    ("func_arg", "func.func @f(%{N} : i32) -> i32 {{\n  func.return %{N} : i32\n}}"),
+    ("custom_successor", 'func.func @g() {{\n  cf.br ^{N}\n^{N}:\n  func.return\n}}'),
+    ("custom_region_arg", 'func.func @h(%lb : index) {{\n  scf.for %{N} = %lb to %lb step %lb {{\n    "test.op"(%{N}) : (index) -> ()\n  }}\n  func.return\n}}'),
+    ("block_arg_second", '"test.op"() ({{\n^bb0(%x : i32, %{N} : i32):\n  "test.op"(%{N}) : (i32) -> ()\n}}) : () -> ()'),
+]
+IDENT_SYMBOL = [("symbol", 'func.func private @{N}() -> ()\n"test.op"() {{s = @{N}::@{N}}} : () -> ()')]
+
+
+def ident_shapes(maxlen: int):
+    """all strings over IDENT_ALPHABET (a letter, a digit, `_`, `$`, `.`, `-`) of length 1..maxlen, shortest first"""
+    import itertools
+
+    for n in range(1, maxlen + 1):
+        for tup in itertools.product(IDENT_ALPHABET, repeat=n):
+            yield "".join(tup)
+
+
+def ident_module(name: str, positions=None) -> str:
+    """one module that uses `name` in every naming position, each inside a region of its own (sibling regions do not
+    see each other's names)"""
+    body = []
+    for _, t in positions or IDENT_POSITIONS:
+        if t.startswith("func.func"):
+            body.append(t.format(N=name))
+        else:
+            body.append('"test.op"() ({\n' + t.format(N=name) + "\n}) : () -> ()")
+    return "\n".join(body) + "\n"
+
+
 LEX_ALPHA = list('"\\\n\v\f\t /.-{#}@!^%>x0123456789abefABEFxX_$+-:,()[]<>=*?|') + [
     "é", "²", "٣", "́", "\0", "\xa0", "\x1c", '"', '"', "\\", "\\n", "\\00", "\\zz", "//", "...", "->", "{-#", "#-}",
     "0x", "1e+5", "1.", '@"', "\ud800", "λ", " ",
@@ -1122,6 +1352,7 @@ class Explorer:
         self.scan_lines: list[tuple[str, int, str]] = []   # (text, pos, impl line)
         self.scan_unavailable = 0
         self.prog_lines: list[tuple[str, str, str]] = []   # (text, model input line, impl outcome)
+        self.hint_lines: list[tuple[str, str, str]] = []   # (name, which, impl line)
         self.rec_depths: list[int] = []
         self.shrink_steps = 60 if ctx.tier == "quick" else 400
 
@@ -1129,9 +1360,9 @@ class Explorer:
     def job(self, entry: str, allow: bool, text: str) -> dict:
         return {"kind": "parse", "entry": entry, "allow": allow, "text": text}
 
-    def parse(self, stream: str, entry: str, allow: bool, text: str, seed_text: str | None = None) -> dict:
+    def parse(self, stream: str, entry: str, allow: bool, text: str, seed_text: str | None = None, clone: bool = False) -> dict:
         ctx = self.ctx
-        res = self.sb.call(self.job(entry, allow, text))
+        res = self.sb.call(self.job_for(entry, allow, text, clone))
         ctx.ev()
         ctx.count(f"{stream}.{res['out']}" + (":" + res["cls"] if res["out"] in ("diag", "esc") else ""))
         self.outcomes[res["out"]] += 1
@@ -1142,22 +1373,107 @@ class Explorer:
         if text != seed_text:
             ctx.nt(hashlib.sha1((entry + "\0" + text).encode("utf-8", "surrogatepass")).hexdigest()[:16])
         if is_failure(res, text):
-            self.failure(stream, entry, allow, text, res)
+            self.failure(stream, entry, allow, text, res, clone)
         return res
 
-    def job_for(self, entry: str, allow: bool, text: str) -> dict:
-        return job_for(entry, allow, text)
+    def job_for(self, entry: str, allow: bool, text: str, clone: bool = False) -> dict:
+        j = job_for(entry, allow, text)
+        if clone and j["kind"] == "parse":
+            j["clone"] = True
+        return j
 
-    def same(self, entry: str, allow: bool, text: str, key: tuple[str, str], wall: float | None = None) -> bool:
-        job = self.job_for(entry, allow, text)
+    def same(self, entry: str, allow: bool, text: str, key: tuple[str, str], wall: float | None = None, clone: bool = False) -> bool:
+        job = self.job_for(entry, allow, text, clone)
         if wall is not None:
             job["wall"] = wall
         r = self.sb.call(job)
         return is_failure(r, text) and (r.get("site"), signature_of(r)) == key
 
-    def failure(self, stream: str, entry: str, allow: bool, text: str, res: dict) -> None:
+    # -- a failure that needs the parses before it ---------------------------------------------
+    def history_failure(self, stream: str, entry: str, allow: bool, texts: list[str], key: tuple[str, str], clone: bool,
+                        log: list[dict]) -> bool:
+        """`texts` (the shrunk and the original input) fail with `key` in the long-lived child but not in a fresh
+        process.  Replays jobs that child ran before (`log`) in a fresh process in front of the input: first the earlier
+        texts that share a rare identifier with it, then (short logs, thorough tier) the whole log with a bisection for
+        the shortest failing prefix; reduces the history (usually to one earlier parse), shrinks the texts and reports
+        the history as the failing input.  False when the failure cannot be reproduced from the log."""
+        ctx = self.ctx
+        if not log:
+            return False
+
+        def mk(t: str) -> dict:
+            return self.job_for(entry, allow, t, clone)
+
+        def run_after(hist: list[dict], t: str) -> dict:
+            r = fresh_call(mk(t), hist)
+            if r["out"] == "budget" and key[1] != SIG_BUDGET:   # a new process on a loaded machine: once more
+                r = fresh_call(mk(t), hist)
+            return r
+
+        def fails(hist: list[dict], t: str) -> bool:
+            r = run_after(hist, t)
+            return is_failure(r, t) and (r.get("site"), signature_of(r)) == key
+
+        ctx.count("history.searches")
+        text, hist = None, None
+        # (1) the likely culprits first: earlier texts that share a rare identifier (dialect symbol, value / block /
+        # symbol name) with the failing text, alone in front of it
+        for t in texts:
+            toks = set(re.findall(r"[A-Za-z_][\w$]*(?:\.[\w$]+)+|[A-Za-z_][\w$]{2,}", t))
+            holders = {tok: [j for j in log if tok in j["text"]] for tok in toks}
+            rare = sorted((tok for tok in toks if 0 < len(holders[tok]) <= 12), key=lambda tok: (len(holders[tok]), -len(tok), tok))
+            for tok in rare[:6]:
+                if fails(holders[tok], t):
+                    text, hist = t, holders[tok]
+                    break
+            if text is not None:
+                break
+        # (2) the whole log: shortest failing prefix by bisection (state only accumulates)
+        if text is None and (len(log) <= 300 or ctx.tier != "quick") and ctx.time_left() > 20:
+            text = next((t for t in texts if fails(log, t)), None)
+            if text is not None:
+                lo, hi = 0, len(log)
+                while hi - lo > 1:
+                    mid = (lo + hi) // 2
+                    if fails(log[:mid], text):
+                        hi = mid
+                    else:
+                        lo = mid
+                hist = log[:hi]
+        if text is None or hist is None:
+            return False
+        if len(hist) > 1 and fails(hist[-1:], text):
+            hist = hist[-1:]
+        elif len(hist) > 1:
+            hist = core.shrink_list(hist, lambda c: ctx.time_left() > 5 and fails(c, text), 40)
+        if len(hist) <= 3:
+            steps = 8 if ctx.tier == "quick" else 150
+            text = shrink_text(text, lambda t: ctx.time_left() > 5 and fails(hist, t), steps)
+            for k in range(len(hist)):
+                def with_k(t: str, k=k) -> bool:
+                    return ctx.time_left() > 5 and fails(hist[:k] + [{**hist[k], "text": t}] + hist[k + 1:], text)
+                hist[k] = {**hist[k], "text": shrink_text(hist[k]["text"], with_k, steps)}
+        r = run_after(hist, text)
+        if not (is_failure(r, text) and (r.get("site"), signature_of(r)) == key):
+            return False
+        alone = run_after([], text)
+        case = {"stream": stream, "entry": entry, "allow_unregistered": allow, "text": text,
+                "history": [{k: v for k, v in h.items() if k in ("kind", "entry", "allow", "text", "pos", "clone", "which")} for h in hist]}
+        if clone:
+            case["clone_context"] = True
+        ctx.count("history.failures")
+        ctx.fail(key[0], key[1], case,
+                 f"{entry} parse of a {len(text)}-character input ended with {r['out']} ({r.get('cls')}) in a process that had parsed "
+                 f"{len(hist)} other text(s) before; alone in a new process it ends with {alone['out']}: {r.get('msg', '')}",
+                 {"outcome": r["out"], "exception": r.get("cls"), "raised_in": r.get("site"), "line": r.get("line"),
+                  "message": r.get("msg"), "current_token": r.get("token"), "outcome_alone": alone["out"]},
+                 "IR, ParseError or a DiagnosticException within the CPU budget, whatever was parsed before")
+        return True
+
+    def failure(self, stream: str, entry: str, allow: bool, text: str, res: dict, clone: bool = False) -> None:
         ctx = self.ctx
         key = (res.get("site", "?"), signature_of(res))
+        before = self.sb.log[:-1] if self.seen.get(key, 0) == 0 and res["out"] in ("esc", "recursion") and entry != "lex" else []
         if res["out"] in ("hang", "budget"):
             self.slow += 1
         self.seen[key] = self.seen.get(key, 0) + 1
@@ -1175,23 +1491,31 @@ class Explorer:
         if ctx.time_left() > 15:
             if res["out"] == "hang":
                 if len(text) > 300:
-                    small = shrink_text(text, lambda t: self.same(entry, allow, t, key, wall=10.0), 8, True)
+                    small = shrink_text(text, lambda t: self.same(entry, allow, t, key, wall=10.0, clone=clone), 8, True)
             else:
                 steps = 25 if key in self.known else self.shrink_steps
-                small = shrink_text(text, lambda t: self.same(entry, allow, t, key), steps, res["out"] == "budget")
+                small = shrink_text(text, lambda t: self.same(entry, allow, t, key, clone=clone), steps, res["out"] == "budget")
         # confirm in a fresh process (no state left over from earlier parses): the shrunk text, else the original
         r3 = None
         for cand in ([small, text] if small != text else [text]):
-            r = fresh_call(self.job_for(entry, allow, cand))
+            r = fresh_call(self.job_for(entry, allow, cand, clone))
             if is_failure(r, cand) and (r.get("site"), signature_of(r)) == key:
                 small, r3 = cand, r
                 break
         if r3 is None:
+            # not a function of the text alone.  Is it a function of the text and of what this process parsed before?
+            # Then a process that parses those texts first and this one next fails in the same way: a failing input
+            # of the statement (a history of parses, the last of which escapes)
+            found = before and self.history_failure(stream, entry, allow, [small, text] if small != text else [text], key, clone, before)
+            if found:
+                return
             self.unconfirmed.append({"stream": stream, "entry": entry, "text": text[:300],
                                      "first": [res["out"], res.get("cls"), res.get("site")], "fresh": [r["out"], r.get("cls"), r.get("site")]})
             del self.seen[key]
             return
         case = {"stream": stream, "entry": entry, "allow_unregistered": allow, "text": small}
+        if clone:
+            case["clone_context"] = True
         ctx.fail(key[0], key[1], case,
                  f"{entry} parse of a {len(small)}-character input ended with {r3['out']} ({r3.get('cls')}): {r3.get('msg', '')}",
                  {"outcome": r3["out"], "exception": r3.get("cls"), "raised_in": r3.get("site"), "line": r3.get("line"),
@@ -1239,6 +1563,25 @@ class Explorer:
         ctx.count(f"{stream}.scan.{res['out']}")
         if is_failure(res, text):
             self.failure(stream + ".scan", f"scan:{pos}", True, text, res)
+
+
+    # -- the name hint of one parsed value / block, for the correspondence with the `value_names` model ----------
+    def hint(self, name: str, which: str) -> None:
+        ctx = self.ctx
+        res = self.sb.call({"kind": "hint", "text": name, "which": which})
+        ctx.ev()
+        if res["out"] == "ok":
+            line = res["hint"]
+            ctx.count(f"ident.hint.{which}." + line.split()[0])
+            if line != "skip":
+                ctx.nt(f"hint:{which}:{name}")
+                self.hint_lines.append((name, which, line))
+            return
+        ctx.count(f"ident.hint.{which}.{res['out']}")
+        text = HINT_TEMPLATES[which].format(N=name)
+        if is_failure(res, text):
+            # the same text through the ordinary parse job: that is the failing input
+            self.parse("ident.hint", "module", True, text)
 
 
 def shrink_text(text: str, pred, max_steps: int, keep_long: bool = False) -> str:
@@ -1500,6 +1843,64 @@ def run_rawscan(ctx: core.Ctx, ex: "Explorer", chunks: list[str], quick: bool) -
             return
 
 
+def run_sigils(ctx: core.Ctx, ex: "Explorer", quick: bool) -> None:
+    """histories of parses in which one dialect symbol name occurs under both sigils.  Every parse goes through the
+    oracle of the statement (an escape that needs the earlier parses is searched for and reported with its history);
+    for a sample of histories the outcome class of the last parse is compared with that of the same text in a new
+    process — a difference between IR and a diagnostic is evidence only (both are outcomes the statement allows)"""
+    rng = ctx.rng
+    hists = list(sigil_cases(rng, quick))
+    checked = set(rng.sample(range(len(hists)), min(len(hists), 2 if quick else 80)))
+    differs: list[dict] = []
+    for hi, hist in enumerate(hists):
+        res = None
+        for entry, text, clone in hist:
+            res = ex.parse("sigil." + ("one_parse" if len(hist) == 1 else "history"), entry, True, text, clone=clone)
+        ctx.count("sigil.histories")
+        if len(hist) > 1 and hi in checked and res is not None and res["out"] in ("ok", "diag"):
+            entry, text, clone = hist[-1]
+            alone = fresh_call(ex.job_for(entry, True, text, clone))
+            ctx.count("sigil.compared_with_new_process")
+            if alone["out"] in ("ok", "diag") and alone["out"] != res["out"]:
+                ctx.count("sigil.outcome_depends_on_history")
+                differs.append({"history": [t for _, t, _ in hist], "after_history": [res["out"], res.get("cls"), res.get("emsg")],
+                                "alone": [alone["out"], alone.get("cls"), alone.get("emsg")]})
+        if ex.slow >= 4:
+            break
+    ctx.extra["outcome_depends_on_history"] = differs[:10]
+
+
+def run_idents(ctx: core.Ctx, ex: "Explorer", quick: bool) -> None:
+    """every identifier shape of length <= 3 (quick: plus a seeded sample of length 4; thorough: <= 4 plus 1500 seeded of length 5) in every naming
+    position.  One module holds all positions; when it ends in a diagnostic (one position rejects the name) every
+    position is parsed alone, so that the others are still reached"""
+    rng = ctx.rng
+    names = list(ident_shapes(3 if quick else 4))
+    if quick:
+        names += rng.sample([n for n in ident_shapes(4) if len(n) == 4], 120)
+    else:
+        names += rng.sample([n for n in ident_shapes(5) if len(n) == 5], 1500)
+    for i, name in enumerate(names):
+        allow = i % 2 == 0
+        res = ex.parse("ident.all_positions", "module", allow, ident_module(name))
+        if res["out"] == "diag":
+            for pos in IDENT_POSITIONS:
+                r = ex.parse("ident." + pos[0], "module", allow, ident_module(name, [pos]))
+                if r["out"] == "ok":
+                    ctx.count("ident.accepted." + pos[0])
+        elif res["out"] == "ok":
+            ctx.count("ident.accepted_everywhere")
+        ex.parse("ident.symbol", "module", allow, ident_module(name, IDENT_SYMBOL))
+        for which in HINT_TEMPLATES:
+            ex.hint(name, which)
+        # names of length <= 2 always; quick: the longer ones while the budget lasts
+        if ex.slow >= 4 or (quick and len(name) >= 2 and i + 1 < len(names) and len(names[i + 1]) > 2 and
+                            ctx.time_left() < (12 if len(names[i + 1]) == 3 else 30)):
+            ctx.count("ident.cut_short")
+            break
+    ctx.count("ident.names", len(names))
+
+
 def run_ssa_progs(ctx: core.Ctx, ex: "Explorer", n: int) -> None:
     """generated SSA-name programs through `Parser.parse_module`; the outcome (IR / which ParseError) is kept for
     the comparison with the `ssa_names` model"""
@@ -1540,6 +1941,26 @@ def run_prog_correspondence(ctx: core.Ctx, ex: "Explorer") -> None:
         ctx.count("ssa.prog.model." + k, v)
     ctx.count("ssa.prog.correspondence_compared", len(rows))
     ctx.count("ssa.prog.correspondence_mismatch", bad)
+
+
+def run_hint_correspondence(ctx: core.Ctx, ex: "Explorer") -> None:
+    """`name_hint` of the parsed value / block against `ValueNames.valueHint` / `blockHint`"""
+    rows = ex.hint_lines
+    if not rows:
+        return
+    model = ctx.model("value_names", [("value " if w == "value" else "block ") + " ".join(f"{ord(c):x}" for c in n) for n, w, _ in rows])
+    bad = 0
+    for (name, which, impl), m in zip(rows, model):
+        if m == "ERR:ValueError":
+            ctx.mismatch("theorem:valueHint_no_error", {"name": name, "which": which}, None, m, "the model reached the ValueError of the setter")
+        if impl != m:
+            bad += 1
+            if bad == 1:
+                ctx.mismatch("correspondence:C07/value_names", {"stream": "ident.hint", "entry": "module", "which": which, "name": name,
+                                                                "text": HINT_TEMPLATES[which].format(N=name)}, impl, m,
+                             "name_hint of the parsed value / block differs from the Lean model of is_valid_name / extract_valid_name")
+    ctx.count("ident.hint.correspondence_compared", len(rows))
+    ctx.count("ident.hint.correspondence_mismatch", bad)
 
 
 def run_scan_correspondence(ctx: core.Ctx, ex: "Explorer") -> None:
@@ -1672,7 +2093,10 @@ def run(ctx: core.Ctx) -> None:
                   ("module", '"test.op"() {a = ٣} : () -> ()'), ("attr", "½"), ("module", '@"' + "b" * 22),
                   ("module", '"test.op"() ({ ^0: }) : () -> ()'), ("module", '"test.op"() ({ "test.op"()[^1] : () -> () ^1: }) : () -> ()'),
                   ("module", "{-# external_resources: { a: { b: \"0x00\" } } #-}"), ("module", ""), ("attr", ""), ("type", ""),
-                  ("attr", '"é\\n"'), ("attr", '"\\C3"'), ("attr", '"\\C3\\A9"'), ("attr", '@"\\ED\\A0\\80"')]
+                  ("attr", '"é\\n"'), ("attr", '"\\C3"'), ("attr", '"\\C3\\A9"'), ("attr", '@"\\ED\\A0\\80"'),
+                  ("attr", "affine_map<(d0) -> (5 mod 0)>"), ("attr", "affine_set<(d0) : (1 floordiv 0 >= 0)>"),
+                  ("attr", "dense<[1]> : tensor<1xcomplex<f32>>"), ("module", '%_1 = "test.op"() : () -> i32'),
+                  ("module", '"test.op"() {a = #zp.n<x>} : () -> !zp.n<x>')]
         for entry, t in probes:
             ex.parse("probe", entry, True, t)
             ex.lex("probe", t)
@@ -1708,6 +2132,16 @@ def run(ctx: core.Ctx) -> None:
         run_ssa_progs(ctx, ex, 100 if quick else 6000)
 
         mark("ssa_progs")
+        # (0c') one dialect symbol name under both sigils / parse histories; identifier shapes in every naming position
+        run_sigils(ctx, ex, quick)
+        mark("sigils")
+        run_idents(ctx, ex, quick)
+        mark("idents")
+        for i, (entry, text) in enumerate(literal_cases(rng, quick)):
+            ex.parse("literal", entry, i % 2 == 0, text)
+            if ex.slow >= 4:
+                break
+        mark("literals")
         # (0d) raw scan of the bodies of unregistered dialect attributes / types
         run_rawscan(ctx, ex, chunks, quick)
 
@@ -1754,9 +2188,13 @@ def run(ctx: core.Ctx) -> None:
                     stream = "ssa.mutation"
                 else:
                     text, stream = mutate(rng, seed), "mutation"
-                ex.parse(stream, "module", allow, text, seed_text=seed)
+                ex.parse(stream, "module", allow, text, seed_text=seed, clone=it % 7 == 0)
                 if it % 3 == 0:
                     ex.lex("mutation", text)
+            elif it % 15 == 3:
+                seed = rng.choice(small)
+                ex.parse("sigil.mutation", "module", it % 60 != 3, both_sigils(rng, seed if rng.random() < 0.7 else mutate(rng, seed)),
+                         seed_text=seed, clone=it % 30 == 3)
             elif it % 15 == 8:
                 entry, prefix, suffix = rng.choice(RAW_WRAPPERS)
                 text = raw_mutate(rng, rng.choice(RAW_MUTATIONS), prefix, raw_body(rng), suffix)
@@ -1776,6 +2214,7 @@ def run(ctx: core.Ctx) -> None:
         run_correspondence(ctx, ex)
         run_scan_correspondence(ctx, ex)
         run_prog_correspondence(ctx, ex)
+        run_hint_correspondence(ctx, ex)
         mark("correspondence")
     finally:
         ex.sb.close()
@@ -1833,7 +2272,16 @@ def replay(ctx: core.Ctx, body: dict) -> int:
         print("STILL FAILING" if bad else "no longer failing")
         return 1 if bad else 0
     if entry != "lex" and case.get("stream") != "lex":
-        res = fresh_call({"kind": "parse", "entry": entry, "allow": case.get("allow_unregistered", True), "text": text})
+        job = {"kind": "parse", "entry": entry, "allow": case.get("allow_unregistered", True), "text": text}
+        if case.get("clone_context"):
+            job["clone"] = True
+        hist = case.get("history") or []
+        for h in hist:
+            print("parsed before :", h.get("entry", h.get("kind")), repr(h.get("text"))[:600])
+        if hist:
+            alone = fresh_call(dict(job))
+            print("alone, in a new process:", {k: v for k, v in alone.items() if k in ("out", "cls", "site", "emsg")})
+        res = fresh_call(job, hist)
         print("parser outcome:", {k: v for k, v in res.items() if k != "lex"})
         bad = is_failure(res, text)
         print("expected      : IR, ParseError or DiagnosticException within the CPU budget")
